@@ -172,11 +172,31 @@ def gl_exact(x, w, a, b, n, seed):
     return True
 
 
+def gauleg_is_fresh(x, w, a, b, n):
+    import numpy as np
+    import esutil.integrate as integ
+    if n > 64:
+        return True
+    x2, w2 = integ.gauleg(a, b, n)
+    if x2 is x or w2 is w or np.shares_memory(x2, x) or np.shares_memory(w2, w):
+        return False
+    keepx, keepw = x.copy(), w.copy()
+    x2 *= 0.5
+    w2 += 1.0
+    x3, w3 = integ.gauleg(a, b, n)
+    ok = np.array_equal(x3, keepx) and np.array_equal(w3, keepw)
+    if ok and (a, b) == (-1.0, 1.0):
+        q = integ.QGauss(n)       # the integrators get their rule from the same function
+        ok = np.array_equal(np.asarray(q.xxi), keepx) and np.array_equal(np.asarray(q.wii), keepw)
+    return bool(ok)
+
+
 contract("esutil.integrate.util.gauleg#rule", params={}, assumed=True, runtime_name="esutil.integrate.util.gauleg",
          why_assumed="bounded run-time stand-in: node values, positivity/sum of weights and exactness are properties of the limit of "
                      "a floating-point Newton iteration (the structure of the returned rule is proved)",
          rt_ensures={"nodes-and-weights": "gl_rule_ok(result[0], result[1], a, b, n) is True",
-                     "exact-to-degree-2n-1": "n > 30 or gl_exact(result[0], result[1], a, b, n, n) is True"},
+                     "exact-to-degree-2n-1": "n > 30 or gl_exact(result[0], result[1], a, b, n, n) is True",
+                     "new-arrays-on-every-call (what a caller does with one rule cannot reach the next one)": "gauleg_is_fresh(result[0], result[1], a, b, n)"},
          props=["C17"])
 
 
@@ -313,8 +333,14 @@ def _dom_qgauss2(tier, seed):
 
     def f2(x, y):
         return np.exp(-0.5 * (x * x + y * y))
+
+    def f_const(x, y):
+        return 1.5          # an integrand that does not look at its arguments (the area times a constant)
+
+    def f_xonly(x, y):
+        return x * x
     for nx, ny in [(1, 1), (2, 2), (3, 4), (4, 3), (1, 5), (7, 2), (10, 10), (12, 30)]:
         for xr, yr in [((0.0, 1.0), (0.0, 2.0)), ((-3.0, 3.0), (-1.0, 0.5)), ((2.0, -1.0), (0.0, 1e-5))]:
-            for f in (f1, f2):
+            for f in (f1, f2, f_const, f_xonly):
                 yield dict(call=(lambda nx=nx, ny=ny, xr=xr, yr=yr, f=f: integ.QGauss2(nx, ny).integrate_func(list(xr), list(yr), f)),
                            args=[], ghost=dict(nx=nx, ny=ny, xr=xr, yr=yr, f=f), key="%dx%d %s %s %s" % (nx, ny, xr, yr, f.__name__))
